@@ -48,6 +48,21 @@ func nonNull(t *gTRef) *gTRef     { return &gTRef{kind: "nn", base: t} }
 type gArg struct {
 	name     string
 	required bool
+	kind     string // "" (Int) | str | bool
+}
+
+func (a gArg) gqlType() string {
+	ty := "Int"
+	switch a.kind {
+	case "str":
+		ty = "String"
+	case "bool":
+		ty = "Boolean"
+	}
+	if a.required {
+		ty += "!"
+	}
+	return ty
 }
 
 type gField struct {
@@ -88,11 +103,7 @@ func (s *gSchema) sdl() string {
 				if len(f.args) > 0 {
 					var as []string
 					for _, a := range f.args {
-						ty := "Int"
-						if a.required {
-							ty = "Int!"
-						}
-						as = append(as, a.name+": "+ty)
+						as = append(as, a.name+": "+a.gqlType())
 					}
 					b.WriteString("(" + strings.Join(as, ", ") + ")")
 				}
@@ -617,6 +628,7 @@ type docOpts struct {
 	maxDepth   int
 	unknownOp  bool // sometimes pass an operation name the document does not define
 	fewDirs    bool // at most one, literal-conditioned directive per selection
+	allArgs    bool // supply every declared argument (the feature set common to the three strategies)
 }
 
 func (d *gDoc) genDirs(r *Rng) []gDir {
@@ -714,8 +726,15 @@ func (d *gDoc) genSels(r *Rng, s *gSchema, ty string, depth int, o docOpts, inFr
 					// follow (DESIGN.md D61)
 					break
 				}
-				if a.required || r.Chance(50) {
-					sel.args = append(sel.args, gArgVal{name: a.name, lit: fmt.Sprint(r.Intn(9))})
+				if a.required || o.allArgs || r.Chance(50) {
+					lit := fmt.Sprint(r.Intn(9))
+					switch a.kind {
+					case "str":
+						lit = fmt.Sprintf("%q", Pick(r, []string{"x", "", "a b", "é"}))
+					case "bool":
+						lit = fmt.Sprint(r.Bool())
+					}
+					sel.args = append(sel.args, gArgVal{name: a.name, lit: lit})
 				}
 			}
 			bn := f.t.baseName()
